@@ -11,6 +11,8 @@
 //	T3 go f(x) -> simrt.Go(func(){ f(x) })                              (concurrent packages)
 //	T4 simrt.Step() at function entries and loop heads                  (VM + interpreter packages)
 //	T5 simrt.Woke() after sleeps / channel operations, Sleeping before  (concurrent packages)
+//	T6 a select with >= 2 channel cases first tries them one at a time in an order chosen by
+//	   simrt.SelectFirst (Go's random pick among ready cases becomes a simulator choice)
 package main
 
 import (
@@ -20,10 +22,13 @@ import (
 	"fmt"
 	"go/ast"
 	"go/format"
+	"go/parser"
+	"go/printer"
 	"go/token"
 	"go/types"
 	"os"
 	"path/filepath"
+	"reflect"
 	"sort"
 	"strconv"
 	"strings"
@@ -52,6 +57,7 @@ type report struct {
 	MapSites   []string       `json:"map_sites"`
 	GoSites    []string       `json:"go_sites"`
 	WakeSites  int            `json:"wake_sites"`
+	SelectSites int           `json:"select_sites"`
 	StepSites  int            `json:"step_sites"`
 	SyncFiles  []string       `json:"sync_files"`
 	Warnings   []string       `json:"warnings"`
@@ -126,8 +132,8 @@ func main() {
 		b, _ := json.MarshalIndent(rep, "", " ")
 		os.WriteFile(*reportPath, b, 0o644)
 	}
-	fmt.Printf("simbuild: %d map-range sites, %d go statements, %d wake points, %d step points, %d sync imports, %d warnings\n",
-		len(rep.MapSites), len(rep.GoSites), rep.WakeSites, rep.StepSites, len(rep.SyncFiles), len(rep.Warnings))
+	fmt.Printf("simbuild: %d map-range sites, %d go statements, %d wake points, %d step points, %d sync imports, %d multi-case selects, %d warnings\n",
+		len(rep.MapSites), len(rep.GoSites), rep.WakeSites, rep.StepSites, len(rep.SyncFiles), rep.SelectSites, len(rep.Warnings))
 	for _, w := range rep.Warnings {
 		fmt.Println("simbuild: warning:", w)
 	}
@@ -143,6 +149,7 @@ type instr struct {
 	count          int
 	needSim        bool
 	sleepRewritten bool
+	selectSeq      int
 }
 
 func sel(name string) ast.Expr {
@@ -223,9 +230,10 @@ func recvName(e ast.Expr) string {
 }
 
 type funcInstr struct {
-	in    *instr
-	fname string
-	nMap  int
+	in          *instr
+	fname       string
+	nMap        int
+	labeledNext bool // the statement about to be visited carries a label
 }
 
 func (fi *funcInstr) funcLit(fl *ast.FuncLit) {
@@ -335,6 +343,8 @@ func (fi *funcInstr) stmts(list []ast.Stmt) []ast.Stmt {
 	var out []ast.Stmt
 	for _, s := range list {
 		wake := true
+		labeled := fi.labeledNext
+		fi.labeledNext = false
 		switch t := s.(type) {
 		case *ast.BlockStmt:
 			fi.block(t)
@@ -375,10 +385,7 @@ func (fi *funcInstr) stmts(list []ast.Stmt) []ast.Stmt {
 			fi.exprs(t.Assign)
 			fi.clauses(t.Body)
 		case *ast.SelectStmt:
-			if wake {
-				out = append(out, callStmt("Blocking"))
-				in.needSim = true
-			}
+			noRewrite := labeled
 			for _, c := range t.Body.List {
 				cc := c.(*ast.CommClause)
 				cc.Body = fi.stmts(cc.Body)
@@ -389,11 +396,34 @@ func (fi *funcInstr) stmts(list []ast.Stmt) []ast.Stmt {
 					in.count++
 				}
 			}
+			if wake && !noRewrite {
+				if blk := fi.selectTries(t); blk != nil {
+					out = append(out, blk)
+					in.rep.SelectSites++
+					in.needSim = true
+					in.count++
+					continue
+				}
+			}
+			if wake {
+				out = append(out, callStmt("Blocking"))
+				in.needSim = true
+			}
 		case *ast.LabeledStmt:
+			fi.labeledNext = true // (a labelled select keeps its shape: `break L` must still name a select)
+			orig := t.Stmt
 			r := fi.stmts([]ast.Stmt{t.Stmt})
-			t.Stmt = r[0]
+			fi.labeledNext = false
+			at := 0 // the label stays on the statement itself, not on a call inserted before it
+			for i := range r {
+				if r[i] == orig {
+					at = i
+				}
+			}
+			out = append(out, r[:at]...)
+			t.Stmt = r[at]
 			out = append(out, t)
-			out = append(out, r[1:]...)
+			out = append(out, r[at+1:]...)
 			continue
 		case *ast.GoStmt:
 			fi.exprs(t.Call)
@@ -447,6 +477,201 @@ func (fi *funcInstr) stmts(list []ast.Stmt) []ast.Stmt {
 		out = append(out, s)
 	}
 	return out
+}
+
+// selectTries implements T6. It returns nil when the statement has fewer than two channel cases or
+// a shape the rewrite does not preserve (labels or goto inside a case body).
+func (fi *funcInstr) selectTries(t *ast.SelectStmt) ast.Stmt {
+	in := fi.in
+	var comm []*ast.CommClause
+	for _, c := range t.Body.List {
+		if cc := c.(*ast.CommClause); cc.Comm != nil {
+			comm = append(comm, cc)
+		}
+	}
+	if len(comm) < 2 {
+		return nil
+	}
+	unsafe := false
+	ast.Inspect(t, func(n ast.Node) bool {
+		switch x := n.(type) {
+		case *ast.LabeledStmt:
+			unsafe = true
+		case *ast.BranchStmt:
+			if x.Tok == token.GOTO {
+				unsafe = true
+			}
+		}
+		return !unsafe
+	})
+	if unsafe {
+		in.rep.Warnings = append(in.rep.Warnings, fmt.Sprintf("%s:%s: select with labels/goto in a case body keeps Go's own pick among ready cases", in.relFile, fi.fname))
+		return nil
+	}
+	in.selectSeq++
+	done := fmt.Sprintf("__simselDone%d", in.selectSeq)
+	first := fmt.Sprintf("__simselFirst%d", in.selectSeq)
+	text := func(n ast.Node) string {
+		var b bytes.Buffer
+		printer.Fprint(&b, in.fset, n)
+		return b.String()
+	}
+	n := len(comm)
+	var src strings.Builder
+	fmt.Fprintf(&src, "package p\nfunc _() {\n{\n%s := %s.SelectFirst(%d)\n%s := false\n", first, simName, n, done)
+	for p := 0; p < n; p++ {
+		fmt.Fprintf(&src, "if !%s {\nswitch (%s + %d) %% %d {\n", done, first, p, n)
+		for i, cc := range comm {
+			try := *cc
+			try.Body = append([]ast.Stmt{&ast.AssignStmt{Lhs: []ast.Expr{ast.NewIdent(done)}, Tok: token.ASSIGN, Rhs: []ast.Expr{ast.NewIdent("true")}}}, cc.Body...)
+			fmt.Fprintf(&src, "case %d:\nselect {\n%s\ndefault:\n}\n", i, text(&try))
+		}
+		src.WriteString("}\n}\n")
+	}
+	if terminating(t, "") {
+		// a select that ends its function ("terminating statement"): when a try succeeded its body has
+		// already left, so the original statement needs no guard - and must not get one, or the
+		// function would lack its final return
+		fmt.Fprintf(&src, "%s.Blocking()\n%s\n}\n}\n", simName, text(t))
+	} else {
+		fmt.Fprintf(&src, "if !%s {\n%s.Blocking()\n%s\n}\n}\n}\n", done, simName, text(t))
+	}
+	f, err := parser.ParseFile(token.NewFileSet(), "select.go", src.String(), parser.SkipObjectResolution)
+	if err != nil {
+		in.rep.Warnings = append(in.rep.Warnings, fmt.Sprintf("%s:%s: select rewrite did not parse (%v): Go's own pick among ready cases is kept", in.relFile, fi.fname, err))
+		in.selectSeq--
+		return nil
+	}
+	blk := f.Decls[0].(*ast.FuncDecl).Body.List[0]
+	clearPos(reflect.ValueOf(blk))
+	return blk
+}
+
+// terminating implements the Go specification's "terminating statement" (label: the label of s, if any).
+func terminating(s ast.Stmt, label string) bool {
+	last := func(list []ast.Stmt) bool {
+		for i := len(list) - 1; i >= 0; i-- {
+			if _, empty := list[i].(*ast.EmptyStmt); empty {
+				continue
+			}
+			return terminating(list[i], "")
+		}
+		return false
+	}
+	switch t := s.(type) {
+	case *ast.ReturnStmt:
+		return true
+	case *ast.BranchStmt:
+		return t.Tok == token.GOTO
+	case *ast.ExprStmt:
+		if c, ok := t.X.(*ast.CallExpr); ok {
+			if id, ok := c.Fun.(*ast.Ident); ok && id.Name == "panic" {
+				return true
+			}
+		}
+	case *ast.BlockStmt:
+		return last(t.List)
+	case *ast.IfStmt:
+		return t.Else != nil && terminating(t.Body, "") && terminating(t.Else, "")
+	case *ast.ForStmt:
+		return t.Cond == nil && !breaksOut(t.Body, label, true)
+	case *ast.LabeledStmt:
+		return terminating(t.Stmt, t.Label.Name)
+	case *ast.SwitchStmt, *ast.TypeSwitchStmt, *ast.SelectStmt:
+		var body *ast.BlockStmt
+		needDefault := true
+		switch x := t.(type) {
+		case *ast.SwitchStmt:
+			body = x.Body
+		case *ast.TypeSwitchStmt:
+			body = x.Body
+		case *ast.SelectStmt:
+			body, needDefault = x.Body, false
+		}
+		if breaksOut(body, label, true) {
+			return false
+		}
+		hasDefault := false
+		for _, c := range body.List {
+			var list []ast.Stmt
+			switch cc := c.(type) {
+			case *ast.CaseClause:
+				list, hasDefault = cc.Body, hasDefault || cc.List == nil
+			case *ast.CommClause:
+				list = cc.Body
+			}
+			if n := len(list); n > 0 {
+				if b, ok := list[n-1].(*ast.BranchStmt); ok && b.Tok == token.FALLTHROUGH {
+					continue
+				}
+			}
+			if !last(list) {
+				return false
+			}
+		}
+		return hasDefault || !needDefault
+	}
+	return false
+}
+
+// breaksOut: does n contain a break that leaves the statement n is the body of (an unlabelled break not
+// inside a nested for/switch/select, or a break naming label)?
+func breaksOut(n ast.Node, label string, top bool) bool {
+	found := false
+	ast.Inspect(n, func(x ast.Node) bool {
+		if found || x == nil {
+			return false
+		}
+		switch t := x.(type) {
+		case *ast.BranchStmt:
+			if t.Tok == token.BREAK && (t.Label == nil && top || t.Label != nil && label != "" && t.Label.Name == label) {
+				found = true
+			}
+		case *ast.ForStmt, *ast.RangeStmt, *ast.SwitchStmt, *ast.TypeSwitchStmt, *ast.SelectStmt:
+			if x != n && top {
+				// unlabelled breaks below here belong to the nested statement; labelled ones may still leave
+				if label != "" && breaksOut(x, label, false) {
+					found = true
+				}
+				return false
+			}
+		case *ast.FuncLit:
+			return false
+		}
+		return true
+	})
+	return found
+}
+
+var posType = reflect.TypeOf(token.NoPos)
+
+// clearPos zeroes every position in a subtree that was parsed from generated text, so that the
+// printer lays it out by structure alone.
+func clearPos(v reflect.Value) {
+	switch v.Kind() {
+	case reflect.Ptr, reflect.Interface:
+		if !v.IsNil() {
+			clearPos(v.Elem())
+		}
+	case reflect.Struct:
+		if v.Type() == reflect.TypeOf(ast.Object{}) || v.Type() == reflect.TypeOf(ast.Scope{}) {
+			return
+		}
+		for i := 0; i < v.NumField(); i++ {
+			f := v.Field(i)
+			if f.Type() == posType {
+				if f.CanSet() {
+					f.SetInt(0)
+				}
+				continue
+			}
+			clearPos(f)
+		}
+	case reflect.Slice:
+		for i := 0; i < v.Len(); i++ {
+			clearPos(v.Index(i))
+		}
+	}
 }
 
 func (fi *funcInstr) ifStmt(t *ast.IfStmt) {
